@@ -42,6 +42,31 @@ class FilterHooks(Hooks):
         return NotImplemented
 
 
+class _RealWriters(Hooks):
+    """the reader is a stand-in over one generic record; the writers are the real FitInfoFile class on a modelled stream, every open() recorded with the
+    condition it happens under"""
+    def __init__(self, record):
+        from .. import recfile
+        self.record = record
+        self.opens, self.writes, self.opened, self.closed = [], [], [], []
+        self._rec = recfile.RecHooks(recfile.PickleStream())
+
+    def construct(self, interp, ci, args, kwargs, node):
+        if ci.name == 'FitInfoFile':
+            mode = args[1] if len(args) > 1 else kwargs.get('mode')
+            if mode == 'r':
+                return _FileStandIn(self, 'r', args[0] if args else None)
+        return NotImplemented
+
+    def opaque(self, interp, fi, args, kwargs, node):
+        return self._rec.opaque(interp, fi, args, kwargs, node)
+
+    def external(self, interp, name, args, kwargs, node, mod):
+        if name == 'builtins.open':
+            self.opens.append((args[0] if args else None, args[1] if len(args) > 1 else kwargs.get('mode', 'r'), interp.path_cond()))
+        return self._rec.external(interp, name, args, kwargs, node, mod)
+
+
 class _FileStandIn(Foreign):
     def __init__(self, hooks, mode, name):
         self.hooks, self.mode, self.name = hooks, mode, name
@@ -76,7 +101,11 @@ def semantic_filter_output(ctx):
         h = FilterHooks(rec)
         I = Interp(repo, h)
         I.nonzero = [sym('chi'), sym('cpd')]
-        kwargs = {'input_fits': 'IN', 'output_good': 'GOOD', 'output_bad': 'BAD', 'chi': scalar(sym('chi'), num(1)) if use_chi else None, 'cpd': scalar(sym('cpd'), num(1)) if use_cpd else None}
+        kwargs = {'input_fits': 'IN', 'output_good': 'GOOD', 'output_bad': 'BAD'}          # a threshold that is not given is left to the function's default
+        if use_chi:
+            kwargs['chi'] = scalar(sym('chi'), num(1))
+        if use_cpd:
+            kwargs['cpd'] = scalar(sym('cpd'), num(1))
         r = I.call(fo, [], kwargs)
         inst = 'one record, %s' % tag
         if I.lost:
@@ -122,6 +151,32 @@ def semantic_filter_output(ctx):
         names = {n for n, m in h.opened}
         ctx.expect({'IN', 'GOOD', 'BAD'} <= names and {'IN', 'GOOD', 'BAD'} <= set(h.closed), 'CFG-4n', inst + ': files', where_, 'reads the input, writes the two named outputs, closes all three',
                    'opened %s, closed %s' % (sorted(map(str, names)), sorted(map(str, h.closed))), 'files')
+    # both output files are created (an existing file emptied) on every run, also when no record goes to one of them: the writers are the real
+    # FitInfoFile class here, and every open() is recorded with the condition it happens under
+    from .. import recfile
+    src = Obj(repo.cls('source.source', 'Source'), {'_valid': symarr('valid', (W,), unit=num(1))})
+    meta = recfile.make_meta(repo)
+    rec = Obj(repo.cls('fit_info', 'FitInfo'), {'source': src, 'chi2': symarr('chi2', (R,), unit=num(1)), 'av': symarr('av', (R,), unit=num(1)), 'sc': symarr('sc', (R,), unit=num(1)), 'meta': meta})
+    inst = 'output files created on every run'
+    g_one = lt(best, sym('chi'))
+    verdicts = []
+    for goes, truth in (('every source is well fitted', True), ('every source is badly fitted', False)):
+        h = _RealWriters(rec)
+        I = Interp(repo, h)
+        I.nonzero = [sym('chi')]
+        I.assume = [(g_one, truth)]          # the routing test decided: nothing is sent to the other file
+        r = I.call(fo, [], {'input_fits': 'IN', 'output_good': 'GOOD', 'output_bad': 'BAD', 'chi': scalar(sym('chi'), num(1))})
+        if isinstance(r, Unk) or I.lost or getattr(I, '_unknown_conds', 0):
+            verdicts.append((goes, None, repr(r if isinstance(r, Unk) else (I.lost[:1] or 'an undecided test'))))
+            continue
+        opened = {n_ for n_, mode, cond in h.opens if isinstance(mode, str) and 'w' in mode and alg.is_zero(cond - 1)[0]}
+        verdicts.append((goes, {'GOOD', 'BAD'} <= opened, sorted(x for x in ('GOOD', 'BAD') if x not in opened)))
+    if any(v[1] is None for v in verdicts):
+        ctx.undecided('CFG-4n', inst, where_, 'not modelled with the real file class (%s): %s' % next((v[0], v[2][:120]) for v in verdicts if v[1] is None)); decided = False
+    else:
+        bad_ = [v for v in verdicts if not v[1]]
+        ctx.expect(not bad_, 'CFG-4n', inst, where_, 'both outputs are opened for writing when every source goes to one of them',
+                   'when %s the file %s is never opened for writing: whatever it held before the run (sources of an earlier run) is still in it' % ((bad_[0][0], '/'.join(bad_[0][2])) if bad_ else ('', '')), 'stale-output')
     # automatic names
     h = FilterHooks(Obj(repo.cls('fit_info', 'FitInfo'), {}))
     I = Interp(repo, h)
@@ -291,6 +346,7 @@ def syntactic_rules(ctx):
 
 FO = 'sedfitter/filter_output.py'
 MUST_FIRE = [
+    ('chi^2 per data point given a default threshold: it also applies when only the total chi^2 is asked for', [('sedfitter/filter_output.py', "                  cpd=None):", "                  cpd=3.):")]),
     ('write to both', [(FO, "            fout_good.write(info)\n        else:", "            fout_good.write(info)\n            fout_bad.write(info)\n        else:")]),
     ('condition inverted', [(FO, "if (chi and bestchi < chi) or (cpd and bestcpd < cpd):", "if not ((chi and bestchi < chi) or (cpd and bestcpd < cpd)):")]),
     ('or -> and', [(FO, "if (chi and bestchi < chi) or (cpd and bestcpd < cpd):", "if (chi and bestchi < chi) and (cpd and bestcpd < cpd):")]),
